@@ -416,6 +416,12 @@ def base_problem(spec):
                 p.task_network.add_subtask(go, l2)
     if var == 2 and cls != "ma":
         p.discrete_time = True
+    if spec.get("rich"):
+        # universe items already present in the base: both actions, an object, a goal
+        for e in RICH:
+            if e["op"] == "action" and cls == "ma" and e["a"] == "d":
+                continue
+            apply_edit(cls, p, e)
     return p
 
 
@@ -423,6 +429,7 @@ def base_problem(spec):
 # replay of one history
 # ----------------------------------------------------------------------------------------
 NOEDIT = {"op": "", "a": "", "t": "", "f": "", "k": "", "v": 0, "c": False}
+RICH = [dict(NOEDIT, op="action", a="a"), dict(NOEDIT, op="action", a="d"), dict(NOEDIT, op="object", a="o1"), dict(NOEDIT, op="goal", a="g1")]
 EMPTY_ABS = {"fl": [], "idef": "none", "objs": [], "acts": [], "aeffs": [], "goals": [], "teffs": [], "tgoals": [], "traj": [],
              "mets": [], "init": [], "tm": False}
 
@@ -492,6 +499,22 @@ def edit_kind(e):
     return e["op"]
 
 
+def history_features(t, step):
+    """input features named by known findings (computed from the recorded calls, no verdict)"""
+    feats = []
+    # a MinimizeActionCosts metric on zz_a was added to the original and zz_a got an effect afterwards, before the clone
+    cost_at = None
+    for o in t["ops"][:step]:
+        if o["tgt"] == "clone":
+            break
+        if o["ro"] == "ok" and o["e"]["op"] == "metric" and o["e"]["a"] == "cost" and cost_at is None:
+            cost_at = True
+        elif o["ro"] == "ok" and o["e"]["op"] == "acteff" and o["e"]["a"] == "a" and cost_at:
+            feats.append("cost-metric-then-acteff")
+            break
+    return feats
+
+
 def judge(ctx, label, traces):
     """traces -> TLC (ModelCloneTrace) -> violations"""
     d = ctx.sub("judge-" + label)
@@ -524,8 +547,9 @@ def judge(ctx, label, traces):
             if key in seen:
                 continue
             seen.add(key)
+            feats = history_features(t, step) if clause in ("eq", "eq-rev", "kind", "hash", "proj") else []
             ctx.violation(
-                "|".join([clause, t["cls"], kind, d]),
+                "|".join([clause, t["cls"], kind, d] + feats),
                 "C22 %s problem: clause %s fails at call %d (%s on %s): %s" % (t["cls"], clause, step, kind, op["tgt"], d),
                 {"clause": clause, "step": step, "detail": detail, "job": t.get("job"), "trace": {k: v for k, v in t.items() if k != "job"}},
             )
@@ -674,16 +698,28 @@ def run(ctx):
         hist = {"std": enumerate_histories(ctx, "std"), "ma": enumerate_histories(ctx, "ma")}
         jobs = []
 
+        def needs_action(h):
+            """the history edits an action's effects (or uses its cost) without declaring the action first"""
+            have = set()
+            for e in h["pre"] + [s["e"] for s in h["post"]]:
+                if e["op"] == "action":
+                    have.add(e["a"])
+                elif (e["op"] == "acteff" and e["a"] not in have) or (e["op"] == "metric" and e["a"] == "cost" and "a" not in have):
+                    return True
+            return False
+
         def add(cls, h, kind, var, P=None):
-            base = {"cls": cls, "var": var, "kind": kind}
+            # bases that already hold the universe's actions: always when the history needs one, else one in three
+            rich = rng.random() < (0.85 if needs_action(h) else 0.34)
+            base = {"cls": cls, "var": var, "kind": kind, "rich": rich}
             if P is not None:
                 base["P"] = P
             jobs.append({"id": len(jobs) + 1, "base": base, "pre": h["pre"], "post": h["post"]})
 
         short = lambda h: len(h["pre"]) + len(h["post"]) <= 2
         # share of the longer (3-edit) histories replayed per class, and of the 2-edit ones for the subclasses
-        f3 = {"plain": 0.06 if q else 1.0, "cont": 0.02 if q else 0.35, "htn": 0.02 if q else 0.35, "ma": 0.25 if q else 1.0}
-        f2 = {"plain": 1.0, "cont": 0.25 if q else 1.0, "htn": 0.25 if q else 1.0, "ma": 1.0}
+        f3 = {"plain": 0.03 if q else 1.0, "cont": 0.01 if q else 0.35, "htn": 0.01 if q else 0.35, "ma": 0.1 if q else 1.0}
+        f2 = {"plain": 1.0, "cont": 0.05 if q else 1.0, "htn": 0.05 if q else 1.0, "ma": 1.0}
         for cls in CLASSES:
             for h in hist["ma" if cls == "ma" else "std"]:
                 if short(h):
@@ -702,7 +738,7 @@ def run(ctx):
                 for e in h["pre"] + [s["e"] for s in h["post"]]:
                     seen[json.dumps(e, sort_keys=True)] = e
             edits[fam] = [seen[k] for k in sorted(seen)]
-        nr = 300 if q else 4000
+        nr = 200 if q else 4000
         g, tg = Gen(rng, metric="any"), TGen(rng)
         gt = Gen(rng, metric="any", traj=True)
         for i in range(nr):
